@@ -394,6 +394,14 @@ fn body(p: &P17) -> Option<(String, String)> {
             verdict = Some(("C17.not_exactly_one".into(), format!("{} of {} racing opens (all keeping their handle) succeeded: {}", held.len(), holders, hist())));
         }
     }
+    // while any handle is still open (the main thread's or an actor's), one more open — issued now,
+    // after every actor has returned — is refused like any other
+    if verdict.is_none() && (owner.is_some() || !held.is_empty()) {
+        if let Ok(second) = DB::open(opts(&fs)) {
+            verdict = Some(("C17.two_owners".into(), format!("after the actors returned a handle is still open, yet one more DB::open on the path succeeds ({})", hist())));
+            drop(second);
+        }
+    }
     // every handle that is still open now (whatever destroy attempts ran meanwhile) is a working
     // database: a write through it succeeds and is there after close + reopen
     let mut survivor_keys: Vec<Vec<u8>> = vec![];
